@@ -346,6 +346,7 @@ func (s *session) update(p *rig.Plugin, tag string, i int) {
 	uid := fmt.Sprintf("upd%d-%s-%s%d-%s", s.run, p.Name, tag, i, kind)
 	us := []*api.ContainerUpdate{{ContainerId: uid}, {ContainerId: uid + "/2"}}
 	us[0].SetLinuxCPUShares(uint64(100 + i))
+	us[1].IgnoreFailure = true // whatever its flags, what the callback reports as failed goes back unchanged
 	s.ev("upd.call", "p", full, "uid", uid, "ids", []string{uid, uid + "/2"})
 	type res struct {
 		failed []*api.ContainerUpdate
